@@ -42,7 +42,8 @@ class BasePickerModel(ABC):
         # local maxima near the border of a chunk need their neighborhood
         margin = self._get_search_margin(**kwargs)
         depth = tuple(d + margin for d in depth)
-        _depth = [min(s, d) for s, d in zip(image.shape, depth)]
+        # NOTE: dask takes a list as one depth per input array, a tuple as one per axis
+        _depth = tuple(min(s, d) for s, d in zip(image.shape, depth))
         task: da.Array = image.map_overlap(
             self._pick_in_chunk_wrapped,
             **params,
